@@ -21,6 +21,7 @@ L3_ASSUME = L1_ASSUME + [
 ]
 GEN_MAIN = {"name": "l3main", "kind": "main", "n": {"quick": 300, "thorough": 300}}
 GEN_MAGIC = {"name": "l3magic", "kind": "magic", "n": {"quick": 0, "thorough": 0}}
+GEN_SHAPES = {"name": "l3shapes", "kind": "shapes", "n": {"quick": 96, "thorough": 2048}}
 GEN_SUGG = {"name": "l3sugg", "kind": "sugg", "n": {"quick": 100, "thorough": 100}}
 GEN_SUGG_OFF = {"name": "l3sugg_off", "kind": "sugg", "n": {"quick": 100, "thorough": 100}, "no_default_features": True}
 
@@ -96,9 +97,17 @@ CHECKS = {
         "assumptions": L1_ASSUME + ["the wrapped type's own from_meta on the same item is the reference (differential)"],
     },
     "C18": {
-        "packages": ["vchecks"],
-        "steps": [vc("c18a", "shapeset", 1, 1, 1)],
-        "assumptions": L1_ASSUME,
+        "packages": ["vchecks", "vgen"],
+        "steps": [vc("c18a", "shapeset", 1, 1, 1), l3("c18b", "derived", 1, 1, 1, gen=GEN_SHAPES)],
+        "assumptions": L3_ASSUME,
+    },
+    "C07": {
+        "packages": ["vchecks", "vgen"],
+        "steps": [vc("c07", "builtins", 4000, 160000),
+                  l3("c07b", "recv-main", 60000, 3200000, extra={"stepname": "recv-main"}),
+                  l3("c07b", "recv-magic", 40000, 1600000, gen=GEN_MAGIC, extra={"stepname": "recv-magic"}),
+                  l3("c07b", "recv-shapes", 30000, 800000, 4, gen=GEN_SHAPES, extra={"stepname": "recv-shapes"})],
+        "assumptions": L3_ASSUME + ["a panic is observed through catch_unwind and a panic hook; documented panics (Data::empty_from on a union, Error::multiple(vec![]), IdentString::map) are not entry points and are not called"],
     },
     "C08": {
         "packages": ["vchecks", "vgen"],
